@@ -53,6 +53,59 @@ def Chunk.count (c : Chunk) : Nat := c.indices.length
 /-- All indices touched by a schedule, in program order (with multiplicity). -/
 def touched (cs : List Chunk) : List Nat := cs.flatMap Chunk.indices
 
+
+/-! ## Emulated masked load / store (AVX2 8- and 16-bit lanes, generic ISA)
+
+AVX2 has masked load/store instructions only for 32-bit lanes.  For `i8/u8/i16/u16/f16`
+`avx2.rs` falls back to scalar Rust loops driven by `_mm256_movemask_epi8(mask)`:
+```
+let mask = _mm256_movemask_epi8(mask.0) as u32;
+for i in 0..16 { if mask & (1 << (i * 2 + 1)) != 0 { *ptr.add(i) = xs[i] } }     // 16-bit lanes
+for i in 0..32 { if mask & (1 << i) != 0 { *ptr.add(i) = xs[i] } }               // 8-bit lanes
+```
+and `generic.rs` loops over the lane-mask array (`if mask_array[i] != 0 { … }`). -/
+
+/-- `_mm256_movemask_epi8`: bit `j` of the result is the top bit of byte `j`. -/
+def movemask8 : List Bool → Nat
+  | [] => 0
+  | b :: bs => (if b then 1 else 0) + 2 * movemask8 bs
+
+/-- Byte-level view of a mask register with 16-bit lanes: each lane is all-ones or all-zeros,
+so both of its bytes carry the lane's truth value. -/
+def bytesOf16 : List Bool → List Bool
+  | [] => []
+  | b :: bs => b :: b :: bytesOf16 bs
+
+/-- Which bit of the movemask the fallback loop tests for lane `i`. -/
+inductive EmuKind where
+  | direct      -- generic ISA: `mask_array[i] != 0`
+  | avx2x8      -- `mask & (1 << i)`
+  | avx2x16     -- `mask & (1 << (i * 2 + 1))`
+  deriving Repr, DecidableEq
+
+/-- The loop's per-lane test as coded. -/
+def emuBit (k : EmuKind) (m : List Bool) (i : Nat) : Bool :=
+  match k with
+  | .direct => m.getD i false
+  | .avx2x8 => (movemask8 m).testBit i
+  | .avx2x16 => (movemask8 (bytesOf16 m)).testBit (i * 2 + 1)
+
+/-- Addresses dereferenced by the fallback loop (`ptr.add(i)` for the lanes whose test
+succeeds), in loop order. -/
+def emuAccess (lanes : Nat) (bit : Nat → Bool) (off : Nat) : List Nat :=
+  (List.range lanes).filterMap (fun i => if bit i then some (off + i) else none)
+
+/-- Emulated masked load: lane `i` is `*ptr.add(i)` if its test succeeds, else zero. -/
+def emuLoad {α : Type} (zero : α) (mem : Nat → α) (lanes : Nat) (bit : Nat → Bool) (off : Nat) :
+    List α :=
+  (List.range lanes).map (fun i => if bit i then mem (off + i) else zero)
+
+/-- Emulated masked store: `for i in 0..lanes { if bit(i) { *ptr.add(i) = xs[i] } }`. -/
+def emuStore {α : Type} (zero : α) (mem : Nat → α) (lanes : Nat) (bit : Nat → Bool) (off : Nat)
+    (xs : List α) : Nat → α :=
+  (List.range lanes).foldl
+    (fun mem i => if bit i then (fun a => if a = off + i then xs.getD i zero else mem a) else mem) mem
+
 /-! ## `simd_map` (functional.rs) -/
 
 /-- The `if n > 0 { mask = first_n_mask(n); load_ptr_mask; store_ptr_mask }` epilogue. -/
